@@ -372,6 +372,47 @@ fn inject_foreign(doc: &Value) -> Vec<(String, Value)> {
     out
 }
 
+/// A v0.1 statement built around a predicate of each format must declare that format
+/// and survive the round trip through the public parser.
+fn check_from_meta_formats(acc: &mut Acc) {
+    let link = c16::links(false)[3].1.clone();
+    let reps: Vec<(usize, Vec<(String, Value)>)> = vec![(0, link_v02_docs().into_iter().step_by(13).collect()), (1, slsa_v01_docs().into_iter().step_by(11).collect()), (2, slsa_v02_docs().into_iter().step_by(5).collect())];
+    for (fmt, docs) in reps {
+        for (n, d) in docs {
+            let Ok(w) = PredicateWrapper::try_from_value(d.clone()) else { continue };
+            acc.evaluations += 1;
+            let witness = || json!({"kind": "from_meta_format", "predicate": n, "json": d});
+            let stmt = match guard(|| StatementWrapper::from_meta(link.clone(), Some(w.clone().into_trait()), StatementVer::V0_1)) {
+                Guard::Done(s) => s,
+                Guard::Panicked(l, m) => {
+                    acc.violation(&format!("panic:{l}"), &m, witness);
+                    continue;
+                }
+            };
+            let Some(bytes) = stmt_bytes(&stmt) else {
+                acc.violation("cannot-serialize-statement", "to_bytes fails on a statement built from link metadata", witness);
+                continue;
+            };
+            let Ok(sv) = serde_json::from_slice::<Value>(&bytes) else {
+                acc.violation("canonical-form-not-json", "the canonical form of a built statement is not JSON", witness);
+                continue;
+            };
+            if sv["predicateType"] != PRED_TYPES[fmt] {
+                acc.violation(
+                    "built-statement-declares-wrong-predicate-type",
+                    &format!("a statement built around a {} predicate declares predicateType {}", PRED_TYPES[fmt], sv["predicateType"]),
+                    witness,
+                );
+            }
+            match StatementWrapper::try_from_value(sv.clone()) {
+                Ok(back) if back == stmt => acc.outcome("from-meta:format-roundtrip-ok"),
+                Ok(_) => acc.violation("built-statement-changes-in-roundtrip", "a statement built from link metadata parses back to a different value", witness),
+                Err(_) => acc.violation("built-statement-not-accepted", "the parser rejects the canonical form of a statement the library built itself", witness),
+            }
+        }
+    }
+}
+
 fn check_from_meta(acc: &mut Acc) {
     for (n, l) in c16::links(false) {
         if n.contains("other-field-named") {
@@ -455,6 +496,7 @@ pub fn run(tier: Tier) -> i32 {
         }
     }
     check_from_meta(&mut acc);
+    check_from_meta_formats(&mut acc);
     acc.sample(|| json!({"kind": "predicate", "document": preds[100].0, "json": preds[100].1}));
     acc.sample(|| json!({"kind": "statement", "document": stmts[5].0, "json": stmts[5].1}));
     // observation: StatementWrapper's derived Serialize is externally tagged and is not what its Deserialize reads
@@ -479,6 +521,7 @@ pub fn replay(case: &Value) -> Value {
             check_statement(&mut acc, "replay", d, declared, contained);
         }
         Some("from_meta") => check_from_meta(&mut acc),
+        Some("from_meta_format") => check_from_meta_formats(&mut acc),
         _ => {}
     }
     json!({"violation": acc.violations.keys().next()})
